@@ -130,7 +130,7 @@ type World struct {
 	instSeq          int
 	Provided         map[string]int // path -> Provide() calls
 	Prelaunched      map[string]int
-	Decisions        []string // "supervisor<-child:decision"
+	Decisions        []string                       // "supervisor<-child:decision"
 	BeforeDecision   func(supervisor, child string) // runs inside the scripted decision maker before it answers
 	InHandler        map[string]int
 	Quiet            bool
@@ -346,9 +346,11 @@ type Script struct {
 	OnKilled    func(a *Act, ctx vivid.ActorContext, m *vivid.OnKilled)
 	OnOther     func(a *Act, ctx vivid.ActorContext, m any)
 	Prelaunch   func(n int) error // n-th Prelaunch call for this path (0-based)
-	PreRestart  func(a *Act) error
-	Restarted   func(a *Act) error
-	Options     []vivid.ActorOption
+	// PrelaunchCtx, if set, runs in OnPrelaunch with the real PrelaunchContext (before Prelaunch decides the result)
+	PrelaunchCtx func(a *Act, ctx vivid.PrelaunchContext, n int)
+	PreRestart   func(a *Act) error
+	Restarted    func(a *Act) error
+	Options      []vivid.ActorOption
 	// Wrap, if set, wraps the scripted actor before it is handed to ActorOf / returned by the provider (e.g. with
 	// vivid.NewComplexCombinationActor and the New*Actor helpers of the public API)
 	Wrap func(inner vivid.Actor) vivid.Actor
@@ -419,6 +421,9 @@ func (a *Act) SpawnChild(ctx vivid.ActorContext, s *Script) (vivid.ActorRef, err
 func (a *Act) OnPrelaunch(ctx vivid.PrelaunchContext) error {
 	n := a.W.Prelaunched[a.S.Name]
 	a.W.Prelaunched[a.S.Name]++
+	if a.S.PrelaunchCtx != nil {
+		a.S.PrelaunchCtx(a, ctx, n)
+	}
 	if a.S.Prelaunch != nil {
 		return a.S.Prelaunch(n)
 	}
